@@ -459,10 +459,12 @@ def discharge(obl, background, timeout_ms=10000, use_cvc5=True, want_model=True,
     s.set("random_seed", seed)
     for a in obl.assumptions:
         s.add(a)
-    relevant = pick_background(background, obl)
-    for b in relevant:
-        s.add(b)
     s.add(z3.Not(goal))
+    s2 = z3.Solver()
+    s2.set("timeout", timeout_ms)
+    s2.set("random_seed", seed)
+    s2.add(z3.parse_smt2_string(to_smt2(obl, background)))
+    s = s2
     r = s.check()
     dt = time.time() - t0
     if r == z3.unsat:
@@ -488,16 +490,66 @@ def pick_background(background, obl):
     return background
 
 
+def axiom_keys(term):
+    """names of the uninterpreted functions an axiom talks about"""
+    names = set()
+    seen = set()
+    todo = [term]
+    while todo:
+        x = todo.pop()
+        if x.get_id() in seen:
+            continue
+        seen.add(x.get_id())
+        if z3.is_quantifier(x):
+            todo.append(x.body())
+            continue
+        if z3.is_app(x):
+            if x.decl().kind() == z3.Z3_OP_UNINTERPRETED and x.num_args() > 0:
+                names.add(x.decl().name())
+            todo.extend(x.children())
+    return names
+
+
+_AX_KEYS = {}
+
+
 def to_smt2(obl, background, extra_assumptions=()):
-    """self-contained SMT-LIB2 text of one obligation (assumptions, background, negated goal)"""
+    """self-contained SMT-LIB2 text of one obligation (assumptions, the background axioms about symbols it mentions, negated goal)"""
     s = z3.Solver()
     for a in obl.assumptions:
         s.add(a)
     for a in extra_assumptions:
         s.add(a)
-    for b in background:
-        s.add(b)
     s.add(z3.Not(obl.goal))
+    text = s.to_smt2()
+    chosen = []
+    changed = True
+    pool = list(background)
+    # an axiom is relevant when every... no: when SOME function it constrains occurs in the problem (closure over added axioms)
+    while changed:
+        changed = False
+        rest = []
+        for b in pool:
+            k = b.get_id()
+            keys = _AX_KEYS.get(k)
+            if keys is None or not keys[1].eq(b):
+                keys = (axiom_keys(b), b)
+                _AX_KEYS[k] = keys
+            if not keys[0] or any(("(" + nm + " ") in text or ("|" + nm + "|") in text for nm in keys[0]):
+                chosen.append(b)
+                changed = True
+            else:
+                rest.append(b)
+        if changed and rest:
+            s2 = z3.Solver()
+            for b in chosen:
+                s2.add(b)
+            text = text + s2.to_smt2()
+        pool = rest
+        if not chosen or not rest:
+            break
+    for b in chosen:
+        s.add(b)
     return s.to_smt2()
 
 
